@@ -28,8 +28,10 @@ oracle : no Lean involved.
              (lone surrogates, NUL bytes, overlong integers, very deep nesting);
          (D) timing *test* of `Lexer(s).parse()` on adversarial repetition families (CPU time of a child process,
              per-point budget);
-         every implementation call inside a stream runs under a wall-clock limit, so a regex gone exponential is
-         reported (site `lexer-does-not-finish`) instead of hanging the check.
+         every call into mako runs under a limit of CPU time of the calling process (wall-clock backup at 8 x), so
+         a regex gone exponential is reported (site `lexer-does-not-finish`) instead of hanging the check, while a
+         frozen or starved process does not produce a false report; timer signals outside a timed call are
+         ignored; the worker pool survives a dead worker (one restart, then `worker-died` + `streams-cut-short`).
 """
 from __future__ import annotations
 
@@ -50,7 +52,7 @@ from harness import lexmodel as LM
 
 Driver = common.Driver      # routes `lex …` requests to the per-area executable (private copy, built before forking)
 
-CASE_BUDGET = 5.0           # seconds of wall time one call into mako may take inside a stream
+CASE_BUDGET = 5.0           # seconds of CPU time (wall backup: 8 x) one call into mako may take inside a stream
 SLOW_ABORT = 40             # after this many expired calls (all workers together) no further call into mako is made
 RUN_BUDGET = {"quick": 8 * 60.0, "thorough": 45 * 60.0}   # wall seconds for the streams of one run
 
@@ -60,11 +62,26 @@ DEADLINE = multiprocessing.Value("d", 0.0)    # wall-clock end of the stream bud
 
 
 class CaseTimeout(BaseException):
-    """raised by the alarm; a BaseException so that no `except Exception` in mako or in an oracle swallows it"""
+    """raised by the timer signal; a BaseException so that no `except Exception` in mako or in an oracle swallows it"""
+
+
+_IN_TIMED = [False]         # the handler raises only while this says that a timed call is running ...
+_LIMITS = [0.0, 0.0]        # ... and only once its CPU or wall deadline has really passed (process_time, time)
 
 
 def _alarm(signum, frame):
-    raise CaseTimeout()
+    """SIGPROF / SIGALRM handler, installed once per process and never removed.  A signal that arrives outside a
+    timed call (between two tasks, after the call returned, sent by somebody else) or before the deadline is ignored."""
+    if _IN_TIMED[0] and (time.process_time() >= _LIMITS[0] or time.time() >= _LIMITS[1]):
+        raise CaseTimeout()
+
+
+def _install_handler():
+    import signal
+    if signal.getsignal(signal.SIGPROF) is not _alarm:
+        signal.signal(signal.SIGPROF, _alarm)
+    if signal.getsignal(signal.SIGALRM) is not _alarm:
+        signal.signal(signal.SIGALRM, _alarm)
 
 
 def aborted():
@@ -73,27 +90,35 @@ def aborted():
 
 
 def timed(fn, *args, budget=None):
-    """EVERY call into mako made by this check goes through here: run fn(*args) under a wall-clock limit (SIGALRM,
-    re-armed every 0.5 s in case something swallowed it; the workers are single-threaded processes) so that a
-    regex gone exponential cannot hang the check.  -> (result, None), (None, 'timeout') when the limit expired, or
-    (None, 'skipped') when the run has been aborted (see `aborted`)."""
+    """EVERY call into mako made by this check goes through here: run fn(*args) under a limit of `budget` seconds
+    of CPU time of this process (ITIMER_PROF: a regex gone exponential burns CPU; a frozen or starved process does
+    not run into it) with a wall-clock backup of 8 x budget (ITIMER_REAL), both re-armed every 0.5 s in case
+    something swallowed the exception.  -> (result, None), (None, 'timeout') when the limit expired, or
+    (None, 'skipped') when the run has been aborted (see `aborted`).  The timers are cancelled before the
+    "inside" flag is cleared; the handler stays installed and ignores anything that arrives outside."""
     import signal
     if aborted():
         return None, "skipped"
-    old = signal.signal(signal.SIGALRM, _alarm)
-    signal.setitimer(signal.ITIMER_REAL, budget or CASE_BUDGET, 0.5)
+    _install_handler()
+    budget = budget or CASE_BUDGET
+    was_inside = _IN_TIMED[0]
     try:
         try:
+            _LIMITS[0] = time.process_time() + budget
+            _LIMITS[1] = time.time() + 8 * budget
+            _IN_TIMED[0] = True
+            signal.setitimer(signal.ITIMER_PROF, budget, 0.5)
+            signal.setitimer(signal.ITIMER_REAL, 8 * budget, 0.5)
             return fn(*args), None
         finally:
+            signal.setitimer(signal.ITIMER_PROF, 0)
             signal.setitimer(signal.ITIMER_REAL, 0)
+            _IN_TIMED[0] = was_inside
     except CaseTimeout:
+        _IN_TIMED[0] = was_inside
         with SLOW.get_lock():
             SLOW.value += 1
         return None, "timeout"
-    finally:
-        signal.setitimer(signal.ITIMER_REAL, 0)
-        signal.signal(signal.SIGALRM, old)
 
 
 def timeout_site(s):
@@ -719,6 +744,91 @@ def with_tmp(fn):
         return fn(tmp)
     finally:
         shutil.rmtree(tmp, ignore_errors=True)
+
+
+def guarded(job):
+    """what a pool worker runs: the task, with a stray CaseTimeout (a timer signal that slipped through outside a
+    timed call) turned into a result instead of killing the worker"""
+    fn, arg = job
+    _install_handler()
+    try:
+        return fn(arg)
+    except CaseTimeout:
+        r = skipped_result()
+        r["branches"] = {"task-interrupted-by-stray-timer-signal": 1}
+        return r
+
+
+class Jobs:
+    """a process pool a dead worker cannot hang: results are awaited with a deadline, a broken pool is replaced
+    once and the unfinished jobs are re-submitted; what still cannot be completed is answered as skipped (named in
+    `streams-cut-short`) and reported with ctx.broke("worker-died", ...)"""
+
+    def __init__(self, ctx):
+        self.ctx = ctx
+        self.ex = None
+        self.deaths = 0
+
+    def executor(self):
+        import concurrent.futures
+        if self.ex is None:
+            self.ex = concurrent.futures.ProcessPoolExecutor(NPROC, mp_context=multiprocessing.get_context("fork"))
+        return self.ex
+
+    def kill(self):
+        ex, self.ex = self.ex, None
+        if ex is None:
+            return
+        procs = list(getattr(ex, "_processes", {}).values())
+        try:
+            ex.shutdown(wait=False, cancel_futures=True)
+        except Exception:
+            pass
+        for p_ in procs:
+            try:
+                p_.terminate()
+            except Exception:
+                pass
+
+    def run(self, jobs, allowance=None):
+        """jobs: [(tag, fn, arg)] -> [(tag, result)] in order"""
+        import concurrent.futures
+        from concurrent.futures.process import BrokenProcessPool
+        results = {}
+        pending = list(range(len(jobs)))
+        why = None
+        for attempt in (1, 2):
+            ex = self.executor()
+            try:
+                futs = [(i, ex.submit(guarded, (jobs[i][1], jobs[i][2]))) for i in pending]
+            except BrokenProcessPool as e:
+                futs, why = [], "the pool was already broken: %r" % (e,)
+            failed = [i for i in pending if i not in [j for j, _ in futs]]
+            for i, f in futs:
+                left = (DEADLINE.value - time.time()) if DEADLINE.value else 3000.0
+                wait = allowance if allowance is not None else max(120.0, left + 300.0)
+                try:
+                    results[i] = f.result(timeout=wait)
+                except BrokenProcessPool as e:
+                    failed.append(i)
+                    why = why or "a worker process died (%s)" % (str(e)[:120] or type(e).__name__)
+                except concurrent.futures.TimeoutError:
+                    failed.append(i)
+                    why = why or "no answer from a worker within %.0f s (task %s)" % (wait, jobs[i][0])
+                    break
+            failed += [i for i, f in futs if i not in results and i not in failed]
+            if not failed:
+                return [(jobs[i][0], results[i]) for i in range(len(jobs))]
+            self.deaths += 1
+            self.ctx.log("worker pool broken (%s): %d of %d jobs unfinished, attempt %d" % (why, len(failed), len(jobs), attempt))
+            self.ctx.branch("worker-pool-broken", 1)
+            self.kill()
+            pending = sorted(set(failed))
+        for i in pending:
+            results[i] = skipped_result()
+        self.ctx.broke("worker-died", "%s; after one restart of the pool %d jobs of streams {%s} are still unfinished" % (
+            why, len(pending), ", ".join(sorted({str(jobs[i][0]) for i in pending}))))
+        return [(jobs[i][0], results[i]) for i in range(len(jobs))]
 
 
 def skipped_result():
@@ -1888,7 +1998,8 @@ def run(ctx):
     SLOW.value = 0
     DEADLINE.value = time.time() + RUN_BUDGET[ctx.tier]
     repo = os.environ.get("MAKO_REPO", "/repo")
-    pool = multiprocessing.get_context("fork").Pool(NPROC)
+    _install_handler()
+    pool = Jobs(ctx)
     t0 = time.time()
     try:
         try:
@@ -1924,9 +2035,7 @@ def run(ctx):
                 for first in CODING_ALPHA:
                     jobs.append(("corr.regex.coding-comment", task_coding, (first, n - 1)))
             ctx.log("per-matcher streams: %d jobs on %d processes" % (len(jobs), NPROC))
-            asyncs = [(stream, pool.apply_async(fn, (a,))) for stream, fn, a in jobs]
-            for stream, a in asyncs:
-                r = a.get(timeout=3000)
+            for stream, r in pool.run(jobs):
                 ctx.stream(stream, "corr", exhaustive=True)
                 merge(ctx, stream, "corr", r)
             ctx.log("per-matcher streams done: %d cases, %d disagreements (%.1fs)" % (
@@ -1951,9 +2060,7 @@ def run(ctx):
                 for pre in itertools.product(ALPHA, repeat=1):
                     jobs.append(("corr.lexer.sampled-k4", task_exhaustive, (pre, 3, 8, phase, opts)))
             ctx.log("(a) token concatenations: %d jobs" % len(jobs))
-            asyncs = [(stream, pool.apply_async(fn, (a,))) for stream, fn, a in jobs]
-            for stream, a in asyncs:
-                r = a.get(timeout=3000)
+            for stream, r in pool.run(jobs):
                 ctx.stream(stream, "corr", exhaustive=(stream == "corr.lexer.exhaustive"))
                 merge(ctx, stream, "corr", r)
             ctx.log("(a) done: %d cases (%.1fs)" % (ctx.streams["corr.lexer.exhaustive"]["cases"], time.time() - t0))
@@ -1972,10 +2079,8 @@ def run(ctx):
             while i * perm < nmal:
                 jobs.append(("corr.lexer.malformed", task_malformed, (ctx.rng.getrandbits(48), perm)))
                 i += 1
-            asyncs = [(stream, pool.apply_async(fn, (a,))) for stream, fn, a in jobs]
             lengths = []
-            for stream, a in asyncs:
-                r = a.get(timeout=3000)
+            for stream, r in pool.run(jobs):
                 ctx.stream(stream, "corr", exhaustive=False)
                 merge(ctx, stream, "corr", r)
                 lengths += r.get("lengths", [])
@@ -2025,10 +2130,12 @@ def run(ctx):
             budget = 3.0 if ctx.quick else 10.0
             top = 10 if ctx.quick else 15
             ns = [2 ** i for i in range(4, top + 1)]
-            asyncs = [pool.apply_async(task_timing, ((name, ns, budget, repo),)) for name, _ in families()]
             st = ctx.stream("oracle.timing", "oracle")
-            for a in asyncs:
-                r = a.get(timeout=3000)
+            for _tag, r in pool.run([("oracle.timing", task_timing, (name, ns, budget, repo)) for name, _ in families()],
+                                    allowance=1800.0):
+                if r.get("skipped"):
+                    SKIPPED.add("oracle.timing")
+                    continue
                 st["cases"] += len(r["points"]) + (1 if r["timed_out_at"] else 0)
                 verdict = judge_family(r, budget)
                 ctx.branch("timing:" + r["name"] + (":SUPERPOLYNOMIAL" if verdict else ":ok"))
@@ -2055,8 +2162,7 @@ def run(ctx):
             SLOW.value += slow_before
             ctx.log("oracles done (%.1fs): %d violations reported" % (time.time() - t0, len(ctx.violations)))
     finally:
-        pool.terminate()
-        pool.join()
+        pool.kill()
         ctx._drv = ctx._drv or common.Driver.__new__(common.Driver)
         ctx._drv.n = getattr(ctx._drv, "n", 0) + sum(s_["cases"] for n_, s_ in ctx.streams.items() if s_["kind"] == "corr")
 
